@@ -1442,6 +1442,24 @@ class Engine:
                 s2 = self.assume(s2, z3.Not(w))
                 if s2 is None:
                     return
+        if c.ret_cases is not None:
+            for lab, guard, ty in c.ret_cases:
+                s3 = self.assume(s2, self.spec_bool(guard, pre, penv))
+                if s3 is None:
+                    continue
+                res = VNONE if ty.kind == 'none' else self.fresh(ty, 'ret_' + full.split('.')[-1],
+                                                                 s3)
+                ok = True
+                for cl in c.ensures_:
+                    s3 = self.assume(s3, self.spec_bool(cl.src, s3, penv, result=res, pre=pre),
+                                     copy=False)
+                    if s3 is None:
+                        ok = False
+                        break
+                if ok:
+                    s3.trace = s3.trace + ('c%d:%s' % (line, lab),)
+                    yield s3, res
+            return
         if c.ret is None:
             res = VNONE
         else:
@@ -2070,6 +2088,9 @@ class Engine:
         st.writes = set()
         self.cur_pre = pre
         self.cur_penv = penv
+        for g, src in c.ghost_entry_:
+            st.ghost[g] = self.coerce(self.spec(src, st, penv), self.reg.ghosts[g])
+            self._wrote(st, ('ghost', g))
         # vacuity: the precondition must be satisfiable; a canary must be refutable
         self.oblige(st, 'canary', 'pre-sat', z3.BoolVal(False), props=c.props, line=node.lineno,
                     note='must be REFUTED: precondition satisfiable')
@@ -2096,7 +2117,24 @@ class Engine:
                 self.oblige(st, 'no-raise', rc.label, w, props=rc.props, line=line,
                             note='normal return although the contract says %s is raised'
                                  % rc.exc)
-        if c.ret is not None and c.ret.kind not in ('rec',) and res.ty != c.ret:
+        if c.ret_cases is not None:
+            match = None
+            for lab, guard, ty in c.ret_cases:
+                if ty.kind == res.ty.kind or (ty.kind == 'list' and res.ty.kind == 'list'):
+                    try:
+                        r2 = res if ty.kind == 'rec' else self.coerce(res, ty)
+                    except (EngineError, TypeError):
+                        continue
+                    match = (lab, guard, r2)
+                    break
+            if match is None:
+                self.oblige(st, 'post', 'result-type', z3.BoolVal(False), props=c.props,
+                            line=line, note='result of type %r fits no declared case' % (res.ty,))
+                return
+            lab, guard, res = match
+            self.oblige(st, 'post', 'result-case:' + lab,
+                        self.spec_bool(guard, pre, penv, goal=True), props=c.props, line=line)
+        elif c.ret is not None and c.ret.kind not in ('rec',) and res.ty != c.ret:
             try:
                 res = self.coerce(res, c.ret)
             except EngineError:
